@@ -16,7 +16,7 @@ import json,sys
 src,dst,pid,rev=sys.argv[1:5]
 m=json.load(open(src))
 m['breaks_property']=pid
-m['origin']="written by an independent sub-agent (round 9) that was given only the property text and a scratch worktree of /repo at "+rev
+m['origin']="written by an independent sub-agent (round 10) that was given only the property text and a scratch worktree of /repo at "+rev
 m['confirmed']="re-run by tools/confirm_seed.sh in the agent's worktree after it finished: patch applies and builds, the 53 baseline tests pass with it, the demonstration fails with the patch and passes without it"
 json.dump(m,open(dst,'w'),indent=1)
 PY
